@@ -390,6 +390,31 @@ def reader_free_of_writer(ctx, rule='C09.reader-free-of-writer'):
         for (nm, md) in L.acquired_transitively(f):
             if nm == wl[0]:
                 res.append(bad(rule, '%s | read API acquires the writer lock' % f.qual, 'read API method %s can acquire the writer lock %s' % (f.qual, nm), where='%s:%d' % (f.file, f.line)))
+    # transactions the crate begins for itself (DB::check ...): one that is begun writable takes the writer lock, so it has to be one that commits; a read-only walk begun
+    # with `true` makes every caller wait for -- and hold up -- the open writer
+    from facts import op_const_val
+    dbtx = F.fn('DB::tx')
+    cm = ctx.A.get('Tx::commit')
+    nint = 0
+    for fn in F.fns:
+        if fn is dbtx or fn is bf:
+            continue
+        for target in (dbtx, bf):
+            if target is None:
+                continue
+            twp = writable_param(target) if target is bf else next((i for i in range(1, target.argc + 1) if target.locals[i]['ty'] == 'bool'), None)
+            for bb, t, c in calls_to_fn(F, fn, target):
+                nint += 1
+                if twp is None or twp - 1 >= len(t['args']):
+                    continue
+                v = op_const_val(t['args'][twp - 1])
+                if v == 1 and cm is not None and cm not in F.reachable_fns([fn.owner if fn.kind == 'Closure' else fn]):
+                    res.append(bad(rule, '%s | begins a writable transaction it never commits' % fn.qual,
+                                   '%s begins a transaction with writable = true at %s and cannot reach Tx::commit: a read-only operation that takes the writer lock is blocked by an open '
+                                   'uncommitted writer and blocks the next one' % (fn.qual, fn.loc(bb)), where=fn.loc(bb)))
+    f = floor(rule, 'transactions begun by the crate itself', nint, 1)
+    if f:
+        res.append(f)
     f = floor(rule, 'read API methods resolved', napi, 12)
     if f:
         res.append(f)
@@ -427,6 +452,38 @@ def snapshot_source(ctx, rule='C09.snapshot-source'):
     f = floor(rule, 'DBInner fields read by header selection', nf, 1)
     if f:
         res.append(f)
+    # ... and what begin stores as the transaction's header is what that selection returned, not a copy kept next to it
+    try:
+        bf = begin_fn(ctx)
+    except Exception:
+        bf = None
+    if bf is not None:
+        du = ctx.du(bf)
+        sel = {g.path for g in scope} | {h.path for h in getattr(ctx.A, 'hdr_helpers', ())}
+        nagg = 0
+        for bb, si, st in aggregates_of(bf, 'TxInner'):
+            for nme, o in zip(st['rv']['fields'], st['rv']['ops']):
+                if nme != 'meta':
+                    continue
+                nagg += 1
+                _, atoms = du.slice_operand(o)
+                # (the five fields the pinned tree has are locks around the map, the file, the free list and the registry: none of them can hold a header)
+                used = sorted({a[2] for a in atoms if a[0] == 'field' and a[1] and last_seg(a[1]) == 'DBInner' and a[2] not in ALLOWED
+                               and a[2] not in ('mmap_lock', 'freelist', 'file', 'open_ro_txs')})
+                from_sel = any(a[0] == 'call' and a[2] in sel for a in atoms)
+                if used:
+                    res.append(bad(rule, '%s | transaction header taken from shared state DBInner.%s' % (bf.qual, ','.join(used)),
+                                   'the header a transaction begins from (TxInner.meta, built at %s) depends on DBInner.%s: a cached copy is whatever the last writer left there -- its '
+                                   'slot number, for one, is the slot *before* that commit, so the next commit overwrites the newest header in place' % (bf.loc(bb, si), ', '.join(used)),
+                                   where=bf.loc(bb, si)))
+                elif not from_sel:
+                    res.append(bad(rule, '%s | transaction header not obtained from header selection' % bf.qual,
+                                   'the header stored in TxInner.meta at %s does not come from %s' % (bf.loc(bb, si), hdr.qual), where=bf.loc(bb, si)))
+                else:
+                    res.append(ok(rule, 'the header stored in TxInner.meta at %s is the result of header selection' % bf.loc(bb, si), sites=1))
+        f = floor(rule, 'constructions of TxInner in begin', nagg, 1)
+        if f:
+            res.append(f)
     return res
 
 
@@ -449,6 +506,8 @@ def run(ctx, tier):
     results += ob['O4'] + ob['O5']
     import c06
     results += c06.shared_freelist(ctx, rule='C09.shared-freelist')
+    # no committed update is lost to a second creator: open writes only into a file it has just created exclusively
+    results += c06.open_existing(ctx, rule='C09.open-existing')
     return dict(
         results=results, stats=dict(ctx.stats),
         explanation=(
@@ -457,5 +516,5 @@ def run(ctx, tier):
             'commit operates on the File inside that guard; (writer-reads-after-lock) the writer snapshots header and free list only after it owns the lock; '
             '(publish-before-unlock) nothing is written or published after the lock holder is dropped; (lock-order) the lock-order graph closed over the call graph '
             'from all public entry points and Drop impls is acyclic, shared acquisitions counted as conflicting; (reader-free-of-writer) readers never touch the writer '
-            'lock; (snapshot-source) the header a transaction starts from is computed from the mapped file only, never from a copy cached in shared state. NOT decided: progress under OS scheduling, same-thread misuse, starvation.'),
+            'lock; (snapshot-source) the header a transaction starts from is computed from the mapped file only, never from a copy cached in shared state. (reader-free-of-writer, third clause) a transaction the crate begins with writable = true reaches commit; (snapshot-source, second clause) begin stores the header that selection returned. NOT decided: progress under OS scheduling, same-thread misuse, starvation.'),
         assumptions=['std::sync::Mutex/RwLock provide mutual exclusion', 'each thread holds at most one transaction (documented contract)'])
